@@ -68,7 +68,12 @@ def case(draw, tier):
     else:
         n = draw(st.integers(1, 6 if big else 4))
         script = draw(tm.history(("TSL", ("TS", "int"), n), start, horizon, {"multi": True}, max_cycles=12 if big else 7))
-    return {"start": start, "end": start + horizon, "comb": comb, "two_node": two_node, "lib": lib, "zero": zero, "kind": kind, "n": n, "script": script}
+    # the zero may be a LIVE time-series (valid from the first cycle, ticking again later): the result then follows it while the
+    # collection is empty or holds one element, and must not move with it once two or more elements are live
+    zero_script = None
+    if zero is not None and kind != "TSL" and draw(st.integers(0, 2)) == 0:      # (no reduce overload takes a fixed-size list with a live zero)
+        zero_script = [[start, zero]] + [[t, draw(st.sampled_from([0, 3, 7, 1000]))] for t in draw(gen.time_set(start + 1, start + horizon - 1, 0, 3))]
+    return {"start": start, "end": start + horizon, "comb": comb, "two_node": two_node, "lib": lib, "zero": zero, "zero_script": zero_script, "kind": kind, "n": n, "script": script}
 
 
 def strategy(tier):
@@ -90,11 +95,13 @@ def check(case, ctx) -> Result:
              "stmts": [{"id": "c", "op": "node", "ins": [{"arg": 0}, {"arg": 1}], "out": "TS[int]", "fn": comb, "log_inputs": False}]}
     schema = ("TSD", "int", ("TS", "int")) if case["kind"] == "TSD" else ("TSL", ("TS", "int"), case["n"])
     dyn = {}   # dynamic list model: index -> value
-    args = [{"fn": "C"}, {"ts": "d"}] + ([{"sc": case["zero"], "t": "int"}] if case["zero"] is not None else [])
+    zs = case.get("zero_script")
+    args = [{"fn": "C"}, {"ts": "d"}] + ([{"ts": "z"}] if zs else [{"sc": case["zero"], "t": "int"}] if case["zero"] is not None else [])
     prog = {"start": case["start"], "end": case["end"], "subs": {"C": C}, "stmts": [
-        {"id": "d", "op": "src", "schema": tm.schema_str(schema), "script": case["script"]},
+        {"id": "d", "op": "src", "schema": tm.schema_str(schema), "script": case["script"]}] +
+        ([{"id": "z", "op": "src", "schema": "TS[int]", "script": [[t, [{"k": "set", "v": v}]] for t, v in zs]}] if zs else []) + [
         {"id": "red", "op": "op", "name": "reduce", "args": args, "has_out": True},
-        {"id": "rec", "op": "node", "ins": ["red", "d"], "valid": [], "deep": False}]}
+        {"id": "rec", "op": "node", "ins": ["red", "d"] + (["z"] if zs else []), "valid": [], "deep": False}]}
     resp = ctx.run(prog)
     if resp.get("crash"):
         res.violations.append(Viol("engine_crash", f"worker died {resp.get('signal')} {resp.get('stderr', '')[-500:]}"))
@@ -114,7 +121,31 @@ def check(case, ctx) -> Result:
     crossed_then_update = emptied_then_regrown = False
     crossed = emptied = False
     first_write = None
-    for t, ops in case["script"]:
+    by_t = {t: ops for t, ops in case["script"]}
+    zero_at = dict(map(tuple, zs)) if zs else {}
+    vals = []
+    for t in sorted(set(by_t) | set(zero_at)):
+        if t in zero_at:
+            zero = zero_at[t]
+        ops = by_t.get(t)
+        if ops is None:
+            # only the live zero ticked: the collection is as it was
+            modified_now = bool(first_write is not None or True)
+            live = len(vals)
+            if not vals:
+                exp_valid, exp = True, zero
+            elif len(vals) == 1:
+                exp_valid, exp = True, f(vals[0], zero)
+            else:
+                exp_valid, exp = True, _fold(f, vals)
+            got = seen.get(t)
+            if got is None:
+                res.violations.append(Viol("no_evaluation_on_collection_tick", f"t={t}: the live zero ticked but the consumer bound to it and to the result was not evaluated", feats))
+                break
+            if bool(got["v"]) != exp_valid or got["val"] != exp:
+                res.violations.append(Viol("result_differs_from_fold", f"t={t} (only the live zero ticked, now {zero}): result valid={got['v']} value {got.get('val')} but the fold over {len(vals)} valid elements {vals[:12]} is {exp}", dict(feats, live=min(live, 3), live_zero=True)))
+                break
+            continue
         if case["kind"] == "DTSL":
             for op in ops:
                 dyn[op["i"]] = op["op"]["v"]
@@ -169,6 +200,8 @@ def check(case, ctx) -> Result:
         res.labels.append("empty_then_regrow")
     res.labels.append("kind_" + case["kind"])
     res.labels.append("with_zero" if zero is not None else "no_zero")
+    if zs:
+        res.labels.append("live_zero" + ("_ticking" if len(zs) > 1 else ""))
     if case["two_node"]:
         res.labels.append("subgraph_combiner")
     if case.get("lib"):
